@@ -152,8 +152,12 @@ def oracle_C09(rs, n, ctx):
         for p, pc in pts:
             p = np.array(p)
             fv = float(rs.choice([float("nan"), -7.0]))
-            val = float(tt(p, fill_value=fv))
             r2 = dict(rep, point_hex=hexl(p), cls=str(pc), fill=fv)
+            try:
+                val = float(tt(p, fill_value=fv))
+            except Exception as ex:  # noqa: BLE001
+                R.violate(f"C09:raises:{type(ex).__name__}", f"point evaluation raised {type(ex).__name__}: {ex}", r2)
+                continue
             inside = all(axes[a][0] <= p[a] <= axes[a][-1] for a in range(nd))
             if not inside:
                 if not (val == fv or (math.isnan(val) and math.isnan(fv))):
@@ -634,10 +638,15 @@ def oracle_C14(rs, n, ctx):
         rep = {"values_shape": list(shape), "values_hex": hexl(vals), "gridsize": list(d), "origin": o}
         R.case((nd, shape, d, multilinear), {"nd": nd, "shape": list(shape), "d": list(d), "o": o, "multilinear": multilinear})
         P = np.array([p for p, _ in pts])
-        lst = g(P)
+        try:
+            lst = g(P)
+            singles_ = [float(g(np.array(p))) for p, _ in pts]
+        except Exception as ex:  # noqa: BLE001
+            R.violate(f"C14:raises:{type(ex).__name__}", f"point evaluation raised {type(ex).__name__}: {ex}", dict(rep, points_hex=hexl(P)))
+            continue
         for k, (p, pc) in enumerate(pts):
             p = np.array(p)
-            val = float(g(p))
+            val = singles_[k]
             r2 = dict(rep, point_hex=hexl(p), cls=str(pc))
             if not (val == lst[k] or (math.isnan(val) and math.isnan(lst[k]))):
                 R.violate("C14:list", "list evaluation differs from the single evaluation", r2)
